@@ -40,11 +40,12 @@ def run(m):
                 if r.returncode != 0:
                     return m, 'skipped', 'patch does not apply: ' + r.stderr.strip()[:200]
         else:
-            f = os.path.join(dst, m['file'])
-            s = open(f).read()
-            if s.count(m['old']) != 1:
-                return m, 'skipped', 'old text occurs %d times' % s.count(m['old'])
-            open(f, 'w').write(s.replace(m['old'], m['new']))
+            for ed in [m] + m.get('more', []):
+                f = os.path.join(dst, ed['file'])
+                s = open(f).read()
+                if s.count(ed['old']) != 1:
+                    return m, 'skipped', 'old text occurs %d times in %s' % (s.count(ed['old']), ed['file'])
+                open(f, 'w').write(s.replace(ed['old'], ed['new']))
         b = subprocess.run(['go', 'build', './...'], cwd=dst, env=env, capture_output=True, text=True)
         if b.returncode != 0:
             return m, 'skipped', 'mutant does not compile: ' + b.stderr.strip()[:300]
